@@ -19,6 +19,8 @@ CONFIGS = {
     "family": ([], "", os.path.join(VERIF, "derive_family"), ["derive_family"]),
 }
 FAMILY_DIR = os.path.join(VERIF, "derive_family")
+FIXTURES_DIR = os.path.join(VERIF, "fixtures")
+CONFIGS["fixtures"] = ([], "", FIXTURES_DIR, ["fixtures"])
 
 
 class ToolFailure(Exception):
@@ -71,6 +73,16 @@ def tree_hash(extra_dirs=()):
     return h.hexdigest()[:20], len(paths)
 
 
+def fixtures_hash():
+    h = hashlib.sha256()
+    n = 0
+    for p in (os.path.join(FIXTURES_DIR, "src", "lib.rs"), os.path.join(FIXTURES_DIR, "Cargo.toml"), os.path.join(DRIVER_DIR, "src", "main.rs")):
+        with open(p, "rb") as fh:
+            h.update(fh.read())
+        n += 1
+    return h.hexdigest()[:20], n
+
+
 def facts_dir(config):
     """Return directory with fresh fact files for `config`, extracting if the tree changed."""
     os.makedirs(WORK, exist_ok=True)
@@ -79,7 +91,10 @@ def facts_dir(config):
     try:
         if not os.path.exists(DRIVER) or os.path.getmtime(DRIVER) < os.path.getmtime(os.path.join(DRIVER_DIR, "src", "main.rs")):
             build_driver()
-        key, nfiles = tree_hash([FAMILY_DIR] if config == "family" else ())
+        if config == "fixtures":
+            key, nfiles = fixtures_hash()
+        else:
+            key, nfiles = tree_hash([FAMILY_DIR] if config == "family" else ())
         out = os.path.join(WORK, "facts", config, key)
         stamp = os.path.join(out, "OK")
         if os.path.exists(stamp):
@@ -96,7 +111,7 @@ def facts_dir(config):
         fp = os.path.join(target, "debug", ".fingerprint")
         if os.path.isdir(fp):
             for d in os.listdir(fp):
-                if any(d.startswith(m + "-") for m in MEMBERS + ["derive_family"]):
+                if any(d.startswith(m + "-") for m in MEMBERS + ["derive_family", "fixtures"]):
                     shutil.rmtree(os.path.join(fp, d), ignore_errors=True)
         if config == "family":
             # the harness crate resolves its dependencies exactly like the repository does
